@@ -139,8 +139,20 @@ func RunSeq(p Params) *Result {
 	s := NewSeq(w, cfg, prof, pools, kept)
 	s.NoReopen = p.Extra["noreopen"] == 1
 	s.Prop = p.Prop
+	if p.Extra["fslog"] == 1 {
+		w.FS.LogOn = true // debugging aid: the violation message ends with the last file mutations
+	}
 	cfg0 := *cfg
 	s.Run()
+	if s.V != nil && p.Extra["fslog"] == 1 {
+		n := len(w.FS.Log)
+		for i := n - 14; i < n; i++ {
+			if i >= 0 {
+				e := w.FS.Log[i]
+				s.V.Msg += fmt.Sprintf("\n   fs#%d task=%d %s %s %s", e.Seq, e.Task, e.Kind, e.Path, e.Path2)
+			}
+		}
+	}
 	if s.V == nil && s.Foreign != nil {
 		s.V = s.Foreign // nothing the property owns fired afterwards: the run reports its foreign divergence
 	}
